@@ -334,7 +334,7 @@ func checkC12(w *World, r *Report) {
 		}
 	}
 	checkCallers(binder, 0)
-	r.floor("call sites of the macro choke point", n4, 3)
+	r.floor("call sites of the macro choke point", n4, 1)
 	checkParserDoesNotEvaluate(w, r)
 	checkImportsRenderLibrary(w, r)
 }
@@ -444,6 +444,25 @@ func macroArgsOriginSrc(w *World, v ssa.Value, evalM *types.Func, depth int, src
 		if x.Op == token.MUL {
 			if fv, ok := x.X.(*ssa.FreeVar); ok {
 				return macroArgsOriginSrc(w, fv, evalM, depth+1, srcOK)
+			}
+			// a field of the receiver of a small "deferred call" type: what every construction
+			// of that type stored there
+			if p, field, ok := paramOrigin(x); ok && field >= 0 {
+				if cvs, ok := constructionValues(p.Type(), field); ok {
+					first := ""
+					for _, cv := range cvs {
+						why := macroArgsOriginSrc(w, cv.val, evalM, depth+1, srcOK)
+						if why == "" {
+							return ""
+						}
+						if first == "" {
+							first = why
+						}
+					}
+					if first != "" {
+						return "field of a deferred-call value: " + first
+					}
+				}
 			}
 			if al, ok := x.X.(*ssa.Alloc); ok && al.Referrers() != nil {
 				okAll, n := true, 0
